@@ -381,6 +381,9 @@ func GenHistory(r *Rng, id int, p GenParams) Case {
 		for i := range co.ID {
 			co.ID[i] = byte(r.U64())
 		}
+		if r.Chance(1, 5) { // the nil UUID given explicitly is an ID like any other
+			co.ID = [16]byte{}
+		}
 	}
 	co.TimeKind = r.Intn(3)
 	if p.DetMode {
